@@ -1,7 +1,7 @@
 (* C09 -- final forms of the property clauses, stated on the lattice object a
    Phase holds ([lattice_of_base A = Ok L], i.e. after diffpy's setLatBase). *)
 From Coq Require Import Reals ZArith Lra Lia Nsatz Bool List Psatz.
-From Verif Require Import Scalar RInst C09Lin C09Miller C09.
+From Verif Require Import Scalar RInst C09Lin C09Miller C09Model.
 From Verif Require Import C09LinAlg C09Alg C09Align C09Obj.
 Import ListNotations.
 Local Open Scope R_scope.
@@ -71,7 +71,7 @@ Lemma m_reciprocal_length (A : M3) (L : lattice R) (hkl g : V3) (Gs : M3) :
   vnorm2 ROps g = vdot ROps (vmat ROps hkl Gs) hkl.
 Proof.
   intros HL Hg HG. pose proof HL as HL'. apply metrics_are_gram in HL'. destruct HL' as [_ HG'].
-  rewrite (HG' Gs HG). use_lattice HL. simpl in Hg. apply Ok_inj in Hg. subst g. apply rlength_mat.
+  rewrite (HG' Gs HG). use_lattice HL. rewrite ts_rc in Hg. apply Ok_inj in Hg. subst g. apply rlength_mat.
 Qed.
 
 Lemma m_direct_length (A : M3) (L : lattice R) (uvw x : V3) :
@@ -79,7 +79,7 @@ Lemma m_direct_length (A : M3) (L : lattice R) (uvw x : V3) :
   vnorm2 ROps x = vdot ROps (vmat ROps uvw (l_metrics L)) uvw.
 Proof.
   intros HL Hx. pose proof HL as HL'. apply metrics_are_gram in HL'. destruct HL' as [HG _].
-  rewrite HG. use_lattice HL. simpl in Hx. apply Ok_inj in Hx. subst x. apply dlength_mat.
+  rewrite HG. use_lattice HL. rewrite ts_dc in Hx. apply Ok_inj in Hx. subst x. apply dlength_mat.
 Qed.
 
 (* d_hkl = 1/|g|: every point of the first lattice plane (hkl) is at least
@@ -92,14 +92,14 @@ Lemma m_dspacing (A : M3) (L : lattice R) (hkl g : V3) :
   (exists uvw x, vdot ROps uvw hkl = 1 /\ transform_space ROps L Sd Sc uvw = Ok x /\
                  vnorm2 ROps x * vnorm2 ROps g = 1).
 Proof.
-  intros HL Hg Hn. use_lattice HL. simpl in Hg. apply Ok_inj in Hg. subst g.
+  intros HL Hg Hn. use_lattice HL. rewrite ts_rc in Hg. apply Ok_inj in Hg. subst g.
   destruct (dspacing_attained A hkl H Hn) as [Hp [Hon Hd1]]. cbv zeta in *.
   split; [exact Hp|]. split.
-  - intros uvw x Hz Hx. simpl in Hx. apply Ok_inj in Hx. subst x. apply dspacing_lower; auto.
+  - intros uvw x Hz Hx. rewrite ts_dc in Hx. apply Ok_inj in Hx. subst x. apply dspacing_lower; auto.
   - set (g := vmat ROps hkl (mtr (minv ROps A))) in *.
     set (p := vscale ROps (/ vnorm2 ROps g) g) in *.
     exists (vmat ROps p (minv ROps A)), p. split; [exact Hon|]. split; [|exact Hd1].
-    simpl. rewrite vmat_minv_l by auto. reflexivity.
+    rewrite ts_dc, vmat_minv_l by auto. reflexivity.
 Qed.
 
 (* ---------------- alignment ---------------- *)
@@ -122,7 +122,7 @@ Lemma m_align_axes (A N : M3) (L : lattice R) :
   mdet ROps (l_base L) = mdet ROps A.
 Proof.
   intros Hp HN HL. assert (Hn : mdet ROps A <> 0) by lra.
-  apply lattice_of_base_inv in HL. destruct HL as [_ ->]. simpl.
+  apply lattice_of_base_inv in HL. destruct HL as [_ ->]. rewrite ts_dc, ts_rc. cbn [Lat l_base].
   destruct (align_a_along_e1 A N Hn HN) as [Ea Pa].
   destruct (align_cstar_along_e3 A N Hp HN) as (z & Ez & Pz).
   split; [|split].
@@ -181,6 +181,18 @@ Proof.
   intros HL Hf M1 M2 C Hc. use_lattice HL. destruct Hf; subst f; split; intros E; try discriminate.
   - eapply cross_indices_direct; eauto.
   - eapply cross_indices_reciprocal; eauto.
+Qed.
+
+Lemma m_cross_perp (u v : V3) :
+  vdot ROps (vcross ROps u v) u = 0 /\ vdot ROps (vcross ROps u v) v = 0.
+Proof. split; [apply vcross_perp_l | apply vcross_perp_r]. Qed.
+
+Lemma m_align_lefthanded (A N : M3) (fracs : list V3) :
+  mdet ROps A < 0 -> align ROps A = Ok N ->
+  (exists z : R, vmat ROps (0, 0, 1) (mtr (minv ROps N)) = (0, 0, z) /\ z < 0) /\
+  set_structure ROps A fracs = Err LatticeError.
+Proof.
+  intros H HN; split; [exact (align_cstar_lefthanded A N H HN) | exact (m_set_structure_lefthanded A fracs H)].
 Qed.
 
 (* ---------------- non-vacuity witnesses ---------------- *)
